@@ -21,7 +21,7 @@ pub static DEF: PropDef = PropDef {
         "each construction order runs in a fresh inference context that holds only the DAG's own nodes",
     ],
     shards: (32, 128),
-    budget_ms: (5_000, 20_000),
+    budget_ms: (60_000, 180_000),
 };
 
 pub fn final_rt(f: &types::Final) -> Rc<RT> {
